@@ -19,8 +19,10 @@ opaque identity `tag` used to state "reads back unchanged".
 The last section ("documented domains") is Spec: what the property text / the docstrings say a
 valid object is.  Everything before it mirrors the code as it is.
 
-Lines that change when a finding of `known_findings/C17.json` is repaired in `/repo` are marked
-`-- [Fxx]` together with the replacement.
+Findings F11, F12a/b, F13a/b, F14b, F14c of `known_findings/C17.json` were repaired in `/repo`
+(commits 7575e32, 50480bb, b15a97b, 942a7aa, ec59199); the model mirrors the repaired code and the
+lines that changed are marked `-- (Fxx fixed)`.  F14 is open: the line that changes when it is
+repaired is marked `-- [F14]` together with the replacement.
 -/
 import Mathlib.Data.Rat.Defs
 import Mathlib.Algebra.Order.Ring.Rat
@@ -195,6 +197,7 @@ inductive Descr
   | scalarPix | oneDPix | posScalar | scalarSky | oneDSky | scalarAngle | posScalarAngle
   | regionType (sky : Bool)
   | rmeta | rvisual
+  | text          -- `TextString`  (F14c fixed)
 deriving DecidableEq, Repr
 
 /-- `_validate` of each descriptor class. -/
@@ -209,7 +212,8 @@ def validate : Descr → Val → Except Exc Unit
       else match pyLeZero v with
         | .error e => .error e
         | .ok true => .error .valueError
-        | .ok false => .ok ()        -- [F11] `.ok false => if v.num.isFinite then .ok () else .error .valueError`
+        | .ok false =>               -- `or not np.isfinite(value)`  (F11 fixed)
+            if v.num.isFinite then .ok () else .error .valueError
   | .scalarSky, v =>
       if v.kind = .skyCoord ∧ v.scalar = true then .ok () else .error .valueError
   | .oneDSky, v =>
@@ -224,12 +228,14 @@ def validate : Descr → Val → Except Exc Unit
       if v.kind = .quantity then
         if v.scalar = false then .error .valueError
         else if v.phys ≠ .angle then .error .valueError
-        else if Num.lt (.fin 0) v.num = false then .error .valueError   -- `not value > 0`
-        else .ok ()                  -- [F11] `else if v.num.isFinite then .ok () else .error .valueError`
+        -- `if not (value > 0 and np.isfinite(value))`  (F11 fixed)
+        else if Num.lt (.fin 0) v.num = false then .error .valueError
+        else if v.num.isFinite then .ok () else .error .valueError
       else .error .valueError
   | .regionType sky, v =>
       if v.kind = (if sky then Kind.skyRegion else Kind.pixRegion) then .ok () else .error .valueError
   | .rmeta, v => if v.kind = .regionMeta then .ok () else .error .valueError
+  | .text, v => if v.kind = .pyStr then .ok () else .error .valueError
   | .rvisual, v => if v.kind = .regionVisual then .ok () else .error .valueError
 
 /-! ## Metadata dictionaries (`regions/core/metadata.py`) -/
@@ -311,7 +317,7 @@ inductive MetaOp
   | setitem (k v : String)                                   -- m[k] = v
   | update (nargs : Nat) (arg : MetaArg) (kw : Items)        -- m.update(*args, **kw)
   | setdefault (k v : String)                                -- m.setdefault(k, v)
-  | ior (arg : MetaArg)                                      -- m |= arg      (inherited from dict)
+  | ior (arg : MetaArg)                                      -- m |= arg
   | pop (k : String) (hasDefault : Bool)                     -- inherited
   | popitem                                                  -- inherited
   | clear                                                    -- inherited
@@ -325,23 +331,28 @@ def argAsDict : MetaArg → Except Exc Items
   | .pairs l => .ok (pyDict l)
   | .notIterable => .error .typeError
 
+/-- `Meta.update(*args, **kwargs)`. -/
+def metaUpdate (m : MetaObj) (nargs : Nat) (arg : MetaArg) (kw : Items) : MetaObj × Result :=
+  if nargs > 1 then (m, .err .valueError)
+  else
+    match (if nargs = 0 then .ok [] else argAsDict arg) with
+    | .error e => (m, .err e)
+    | .ok other =>
+      -- every key is validated before the first store  (F12b fixed)
+      if (other ++ kw).any (fun kv => !(vocabulary m.vis).contains (mapKey m.vis kv.1)) then
+        (m, .err .keyError)
+      else
+      match m.setAll other with
+      | (m', .err e) => (m', .err e)
+      | (m', .ok) => m'.setAll kw
+
 /-- one dict-mutation call on a Meta object: the object afterwards and what the call did. -/
 def metaStep (m : MetaObj) : MetaOp → MetaObj × Result
   | .setitem k v =>
       match m.setitem k v with
       | .ok m' => (m', .ok)
       | .error e => (m, .err e)
-  | .update nargs arg kw =>
-      if nargs > 1 then (m, .err .valueError)
-      else
-        match (if nargs = 0 then .ok [] else argAsDict arg) with
-        | .error e => (m, .err e)
-        | .ok other =>
-          -- [F12b] validate every key of `other ++ kw` first:
-          -- `if (other ++ kw).any (fun kv => !(vocabulary m.vis).contains (mapKey m.vis kv.1)) then (m, .err .keyError) else`
-          match m.setAll other with
-          | (m', .err e) => (m', .err e)
-          | (m', .ok) => m'.setAll kw
+  | .update nargs arg kw => metaUpdate m nargs arg kw
   | .setdefault k v =>
       -- `if key not in self` looks the RAW key up; the store goes through `__setitem__`;
       -- `return self[key]` looks the MAPPED key up (KeyError if only the raw alias is present)
@@ -353,12 +364,7 @@ def metaStep (m : MetaObj) : MetaOp → MetaObj × Result
       match stored with
       | (m', .ok) => if dictHas m'.items (mapKey m'.vis k) then (m', .ok) else (m', .err .keyError)
       | r => r
-  | .ior arg =>
-      -- `dict.__ior__`: C-level `dict.update`, no validation, no key mapping
-      -- [F12a] becomes: `metaStep m (.update 1 arg [])`
-      match argAsDict arg with
-      | .error e => (m, .err e)
-      | .ok other => ({ m with items := other.foldl (fun d kv => dictSet d kv.1 kv.2) m.items }, .ok)
+  | .ior arg => metaUpdate m 1 arg []      -- `__ior__`: `self.update(other); return self`  (F12a fixed)
   | .pop k hasDefault =>
       if dictHas m.items k then ({ m with items := dictErase m.items k }, .ok)
       else if hasDefault then (m, .ok) else (m, .err .keyError)
@@ -402,8 +408,7 @@ def dictMutators : List (String × Bool) :=
 
 /-- the entry points that `Meta` itself overrides (`name in Meta.__dict__`), checked against the
 live class. -/
-def metaOverrides : List String := ["__init__", "__setitem__", "update", "setdefault"]
-  -- [F12a] add "__ior__"
+def metaOverrides : List String := ["__init__", "__setitem__", "update", "setdefault", "__ior__"]
 
 def MetaObj.toVal (m : MetaObj) : Val :=
   { kind := if m.vis then .regionVisual else .regionMeta, size := m.items.length, items := m.items }
@@ -462,9 +467,8 @@ def attrs : Cls → List (String × Attr)
   | .lineS => [("start", .descr .scalarSky), ("end", .descr .scalarSky)] ++ mv
   | .pointP => [("center", .descr .scalarPix)] ++ mv
   | .pointS => [("center", .descr .scalarSky)] ++ mv
-  | .textP => [("center", .descr .scalarPix), ("text", .plain)] ++ mv
-      -- [F14c] `("text", .descr .text)` with a new string descriptor
-  | .textS => [("center", .descr .scalarSky), ("text", .plain)] ++ mv
+  | .textP => [("center", .descr .scalarPix), ("text", .descr .text)] ++ mv
+  | .textS => [("center", .descr .scalarSky), ("text", .descr .text)] ++ mv
   | .compP =>
       [("region1", .descr (.regionType false)), ("region2", .descr (.regionType false)),
        ("operator", .readonly)]
@@ -510,10 +514,27 @@ def coerce : Descr → Val → Except Exc Val
       else .ok v
   | _, v => .ok v
 
-/-- `setattr(obj, f, v)`: `RegionAttribute.__set__` = (coerce,) validate, THEN store. -/
+/-- `RegularPolygonPixelRegion.__setattr__`: `nvertices` is validated and must be `>= 3`
+(F14b fixed). -/
+def nvertsPre (o : RObj) (f : String) (v : Val) : Except Exc Unit :=
+  if o.cls = .regPolyP ∧ f = "nvertices" then
+    match validate .posScalar v with
+    | .error e => .error e
+    | .ok () =>
+      match pyLtConst v 3 with
+      | .error e => .error e
+      | .ok true => .error .valueError
+      | .ok false => .ok ()
+  else .ok ()
+
+/-- `setattr(obj, f, v)`: class-level `__setattr__` checks, then `RegionAttribute.__set__` =
+(coerce,) validate, THEN store. -/
 def RObj.assign (o : RObj) (f : String) (v : Val) : Except Exc RObj :=
-  -- [F14] annulus classes first run `orderPre o f v` (see the end of this section)
-  -- [F14b] `regPolyP` first runs: `if f = "nvertices" then validate .posScalar v, then pyLtConst v 3 = true → ValueError`
+  -- [F14] the annulus classes would first run a check of `v` against the other size of its
+  -- (inner, outer) pair: validate `v`, then `inner >= outer → ValueError` (proposed_fixes/F14.diff)
+  match nvertsPre o f v with
+  | .error e => .error e
+  | .ok () =>
   match (attrs o.cls).lookup f with
   | some (.descr d) =>
       match coerce d v with
@@ -650,12 +671,10 @@ structure Member where
   tag : String
 deriving DecidableEq, Repr
 
-/-- a `Regions` object: the content of `self.regions`, whether that container is a tuple, and
-whether it is the very list object the caller passed in (`self.regions = regions`). -/
+/-- a `Regions` object: the content of `self.regions`, always a list of its own
+(`self.regions = list(regions)`; F13b fixed in b15a97b). -/
 structure RList where
   items : List Member
-  isTuple : Bool := false
-  aliased : Bool := false
 deriving DecidableEq, Repr
 
 inductive ListOp
@@ -674,48 +693,40 @@ deriving DecidableEq, Repr
 def insertIdx (n : Nat) (i : Int) : Nat :=
   if i < 0 then (i + n).toNat else min i.toNat n
 
-/-- `Regions(arg)`: `arg` = `none` for `Regions()`, else the members and the container type. -/
+/-- `Regions(arg)`: `arg` = `none` for `Regions()`, else the members and whether the container
+is a tuple (any iterable is copied into a new list). -/
 def RList.ctor (arg : Option (List Member × Bool)) : Except Exc RList :=
   match arg with
-  | none => .ok ⟨[], false, false⟩
-  | some (xs, isTuple) =>
-      if xs.isEmpty ∧ isTuple then .ok ⟨[], false, false⟩        -- `if regions == (): regions = []`
-      else if xs.all (·.isRegion) then .ok ⟨xs, isTuple, !isTuple⟩
-                                            -- [F13b] `.ok ⟨xs, false, false⟩`  (`list(regions)`)
-      else .error .typeError
+  | none => .ok ⟨[]⟩
+  | some (xs, _) => if xs.all (·.isRegion) then .ok ⟨xs⟩ else .error .typeError
 
 def listStep (l : RList) : ListOp → RList × Result
   | .append x =>
-      if !x.isRegion then (l, .err .typeError)
-      else if l.isTuple then (l, .err .attributeError)
-      else ({ l with items := l.items ++ [x] }, .ok)
+      if !x.isRegion then (l, .err .typeError) else (⟨l.items ++ [x]⟩, .ok)
   | .extendList xs =>
-      if !xs.all (·.isRegion) then (l, .err .typeError)
-      else if l.isTuple then (l, .err .attributeError)
-      else ({ l with items := l.items ++ xs }, .ok)
-  | .extendRegions xs =>
-      if l.isTuple then (l, .err .attributeError)
-      else ({ l with items := l.items ++ xs }, .ok)
+      if !xs.all (·.isRegion) then (l, .err .typeError) else (⟨l.items ++ xs⟩, .ok)
+  | .extendRegions xs => (⟨l.items ++ xs⟩, .ok)
   | .extendBad => (l, .err .typeError)
   | .insert i x =>
-      -- [F13a] first: `if !x.isRegion then (l, .err .typeError) else`
-      if l.isTuple then (l, .err .attributeError)
+      if !x.isRegion then (l, .err .typeError)          -- (F13a fixed in b15a97b)
       else
         let k := insertIdx l.items.length i
-        ({ l with items := l.items.take k ++ [x] ++ l.items.drop k }, .ok)
+        (⟨l.items.take k ++ [x] ++ l.items.drop k⟩, .ok)
   | .setitem _ _ => (l, .err .typeError)
   | .pop i =>
-      if l.isTuple then (l, .err .attributeError)
-      else
-        let n : Int := l.items.length
-        let k := if i < 0 then i + n else i
-        if k < 0 ∨ k ≥ n then (l, .err .indexError)
-        else ({ l with items := l.items.eraseIdx k.toNat }, .ok)
-  | .reverse =>
-      if l.isTuple then (l, .err .attributeError)
-      else ({ l with items := l.items.reverse }, .ok)
-  | .srcAppend x =>
-      if l.aliased then ({ l with items := l.items ++ [x] }, .ok) else (l, .ok)
+      let n : Int := l.items.length
+      let k := if i < 0 then i + n else i
+      if k < 0 ∨ k ≥ n then (l, .err .indexError)
+      else (⟨l.items.eraseIdx k.toNat⟩, .ok)
+  | .reverse => (⟨l.items.reverse⟩, .ok)
+  | .srcAppend _ => (l, .ok)          -- the caller's list is not shared with the object (F13b fixed)
+
+/-! ## `RegionMask.__init__` (`regions/core/mask.py`) -/
+
+/-- `if self.data.shape != bbox.shape: raise ValueError` with `bbox.shape = (ny, nx)`
+(the box itself was validated by `RegionBoundingBox.__init__`, model `Impl.BBox.mkChecked`, C19). -/
+def maskCtor (dataShape : List Int) (ny nx : Int) : Except Exc Unit :=
+  if dataShape = [ny, nx] then .ok () else .error .valueError
 
 /-! ## One step of a history -/
 
@@ -785,6 +796,7 @@ def inDomain : Descr → Val → Bool
       (match v.num with | .fin q => decide (0 < q) | _ => false)
   | .regionType sky, v => v.kind == (if sky then Kind.skyRegion else Kind.pixRegion)
   | .rmeta, v => v.kind == .regionMeta && keysIn metaKeys v.items
+  | .text, v => v.kind == .pyStr
   | .rvisual, v => v.kind == .regionVisual && keysIn visualKeys v.items
 
 /-- one attribute of a region object is as documented. -/
